@@ -67,7 +67,7 @@ Terms(m) == [i \in 1..m |-> "t"]
 \* onames[i]) -- and odecl is the order in which the author wrote them in Node(outputs = [...]) (positions in onames)
 MkNodeH(nout, yields, ins, st, v, yv, onames, odecl) ==
   [nout |-> nout, yields |-> yields, yvals |-> yv, coords |-> Coords(nout), inputs |-> ins,
-   args |-> Args(st, Len(ins), v), kwargs |-> Kwargs(st, v), onames |-> onames, odecl |-> odecl, fn |-> ""]
+   args |-> Args(st, Len(ins), v), kwargs |-> Kwargs(st, v), onames |-> onames, odecl |-> odecl, fn |-> "", hname |-> ""]
 MkNodeY(nout, yields, ins, st, v, yv) == MkNodeH(nout, yields, ins, st, v, yv, <<>>, <<>>)
 MkNodeV(nout, yields, ins, st, v) == MkNodeY(nout, yields, ins, st, v, Terms(yields))
 MkNode(nout, yields, ins, st) == MkNodeV(nout, yields, ins, st, IntA(7))
@@ -147,6 +147,18 @@ SameValueCases ==
          : <<v, gen, o>> \in {<<v, FALSE, 0>> : v \in Vals} \cup {<<v, TRUE, 1>> : v \in Vals}}
 \* and every placement for the graphs of part (3) that have a consumer
 PlacedFalsy == {[place |-> pl, nodes |-> c.nodes] : pl \in {"one", "consumers"}, c \in {c \in FalsyCases : Len(c.nodes) >= 2}}
+
+\* (8) hand-built generators whose NAMES and output names contain the characters that code joining "<task><sep><output>" could
+\*     use as separator ('.', ':', '/', '|', none), chosen so that two different datasets coincide once joined:
+\*     ("a.b", "c") / ("a", "b.c"), ("g1", "0") / ("g", "10"); both are consumed, by one task and by two, on other workers
+\*     than their producers (every value travels through shared memory); every dataset has its own value
+HNamed(name, onames) == [MkNodeH(2, 2, <<>>, 4, IntA(7), Terms(2), onames, <<1, 2>>) EXCEPT !.hname = name]
+ClashPairs == {<<HNamed("a" \o sp \o "b", <<"c", "d">>), HNamed("a", <<"b" \o sp \o "c", "x">>)>> : sp \in {".", ":", "/", "|"}}
+         \cup {<<HNamed("g1", <<"0", "1">>), HNamed("g", <<"10", "2">>)>>, <<HNamed("g", <<"10", "2">>), HNamed("g1", <<"0", "1">>)>>}
+ClashCases == {[place |-> pl, nodes |-> <<hp[1], hp[2]>> \o cs] :
+                  hp \in ClashPairs, pl \in {"each", "consumers"},
+                  cs \in {<<MkNode(1, 1, <<<<1, 0>>, <<2, 0>>>>, 3)>>, <<MkNode(1, 1, <<<<2, 0>>, <<1, 0>>>>, 1)>>,
+                          <<MkNode(1, 1, <<<<1, 0>>>>, 3), MkNode(1, 1, <<<<2, 0>>>>, 3)>>, <<>>}}
 
 \* (6) hand-built JOBS (no graph, no graph2job): single-output tasks made with TaskBuilder.from_callable(..).with_values(..)
 \*     ("from_callable": the signature defaults are recorded as static keyword values) or as raw TaskInstances ("raw"), edges
@@ -251,7 +263,7 @@ Post(c, r) ==
   \cup (IF \A j \in good : nm(j) \notin SetOf(r.failures) THEN {} ELSE {"task_failure_without_cause"})
 
 \* ======================================================================== the two TLC passes
-Generate == JsonSerialize(IOEnv.CASES_FILE, SetToSeq(BindCases) \o SetToSeq(OutCases) \o SetToSeq(FalsyCases) \o SetToSeq(HandCases) \o SetToSeq(SharedFnCases) \o SetToSeq(JobCases) \o SetToSeq(SameValueCases) \o SetToSeq(PlacedFalsy))
+Generate == JsonSerialize(IOEnv.CASES_FILE, SetToSeq(BindCases) \o SetToSeq(OutCases) \o SetToSeq(FalsyCases) \o SetToSeq(HandCases) \o SetToSeq(SharedFnCases) \o SetToSeq(JobCases) \o SetToSeq(SameValueCases) \o SetToSeq(PlacedFalsy) \o SetToSeq(ClashCases))
 Judge ==
   LET cs == JsonDeserialize(IOEnv.CASES_FILE)
       rs == JsonDeserialize(IOEnv.RESULTS_FILE)
